@@ -237,6 +237,69 @@ def compare_expansions(d_dev, d_rel, crates):
     return res
 
 
+def _run_sig(run):
+    """order-free signature of what a function does in one partition; None when the analysis was not exact"""
+    if run.get("und"):
+        return None
+    sig = []
+    for o in run.get("outs", []):
+        if str(o.get("imp", "0")) == "1" or o.get("und"):
+            return None
+        v = json.dumps(o.get("v"), sort_keys=True) if o["k"] == "ret" else ""
+        cells = json.dumps(o.get("cells"), sort_keys=True) if o["k"] == "ret" else ""
+        if "*T" in v or "*T" in cells:
+            return None
+        sig.append((o["k"], v, cells))
+    return sorted(sig)
+
+
+def profile_diff(dir_dev, dir_rel, crates):
+    """compare, function by function and partition by partition, what the interpreter finds in the MIR built with
+    debug assertions and overflow checks on (the facts every rule uses) and in the MIR built with both off"""
+    res = {}
+    for c in crates:
+        a = os.path.join(dir_dev, c + ".facts.json")
+        b = os.path.join(dir_rel, c + ".facts.json")
+        if not (os.path.exists(a) and os.path.exists(b)):
+            res[c] = {"compared": 0, "diffs": [], "why": "facts missing for one profile"}
+            continue
+        da = json.load(open(a))
+        db = json.load(open(b))
+        idx = {}
+        for f in db["fns"]:
+            idx[(f.get("adt"), f["name"], tuple(f.get("impl_consts") or []), f.get("trait"))] = f
+        n = 0
+        diffs = []
+        for f in da["fns"]:
+            g = idx.get((f.get("adt"), f["name"], tuple(f.get("impl_consts") or []), f.get("trait")))
+            if g is None or not f.get("pub"):
+                continue
+            rel_runs = {json.dumps(r["part"], sort_keys=True): r for r in g.get("runs", [])}
+            for ra in f.get("runs", []):
+                rb = rel_runs.get(json.dumps(ra["part"], sort_keys=True))
+                if rb is None:
+                    continue
+                sa, sb = _run_sig(ra), _run_sig(rb)
+                if sa is None:
+                    continue
+                if sb is None:
+                    # the other profile's analysis is not exact (e.g. a shift by an unbounded index that is no longer
+                    # stopped by an assertion): still comparable by *kind* of outcome
+                    ka = sorted({x[0] for x in sa})
+                    kb = sorted({o["k"] for o in rb.get("outs", [])}) if not rb.get("und") else None
+                    if kb is not None and ka != kb:
+                        n += 1
+                        diffs.append({"fn": f["path"], "adt": f.get("adt"), "name": f["name"], "part": ra["part"], "dev": ka, "rel": kb, "dev_v": "", "rel_v": "(analysis of this profile not exact)"})
+                    continue
+                n += 1
+                if sa != sb:
+                    diffs.append({"fn": f["path"], "adt": f.get("adt"), "name": f["name"], "part": ra["part"],
+                                  "dev": [x[0] for x in sa], "rel": [x[0] for x in sb],
+                                  "dev_v": (sa[0][1] if sa else "")[:160], "rel_v": (sb[0][1] if sb else "")[:160]})
+        res[c] = {"compared": n, "diffs": diffs[:40], "ndiffs": len(diffs)}
+    return res
+
+
 def build(tier, seed, verbose=True):
     ensure_tools()
     key = tree_key(tier, seed)
@@ -300,10 +363,20 @@ def build(tier, seed, verbose=True):
             e2.update(xenv)
         threads.append(threading.Thread(target=job, args=(lab, ws, os.path.join(out, lab + "_facts"), os.path.join(out, "target_" + lab)),
                                         kwargs={"wrapper": False, "sub": "check", "extra_env": e2}))
+    # the same witnesses compiled the way a `--release` build compiles the *user's* crate: no debug assertions, no
+    # overflow checks; the interpreter's findings must not change (C16)
+    rel_out = os.path.join(out, "relrun")
+    threads.append(threading.Thread(target=job, args=("main_rel", ws, rel_out, os.path.join(out, "target_mainrel")),
+                                    kwargs={"extra_env": {"RUSTFLAGS": "-Zmir-opt-level=0 -Zalways-encode-mir -Awarnings -Cdebug-assertions=off -Coverflow-checks=off",
+                                                          "BBDRV_HINTS": os.path.join(out, "hints")}}))
     for t in threads:
         t.start()
     for t in threads:
         t.join()
+    prof_diff = profile_diff(os.path.join(out, "facts"), os.path.join(rel_out, "facts"), [c.name for c in pos])
+    shutil.rmtree(rel_out, ignore_errors=True)
+    shutil.rmtree(os.path.join(out, "target_mainrel"), ignore_errors=True)
+    results.pop("main_rel", None)
     expand_diff = compare_expansions(exp_dirs["expand_dev"], exp_dirs["expand_rel"], [c.name for c in pos])
     for lab in exp_dirs:
         shutil.rmtree(exp_dirs[lab], ignore_errors=True)
@@ -493,7 +566,7 @@ def build(tier, seed, verbose=True):
         json.dump(model, f)
     with open(os.path.join(out, "runs.json"), "w") as f:
         json.dump(runs, f)
-    meta = {"key": key, "tier": tier, "seed": seed, "harvested": harvested, "build_wall_s": round(time.time() - t0, 2), "expand_diff": expand_diff,
+    meta = {"key": key, "tier": tier, "seed": seed, "harvested": harvested, "build_wall_s": round(time.time() - t0, 2), "expand_diff": expand_diff, "profile_diff": prof_diff,
             "crates": [c.name for c in crates]}
     with open(os.path.join(out, "meta.json"), "w") as f:
         json.dump(meta, f)
